@@ -9,7 +9,8 @@ import random, struct
 
 ZERO_AOF = 0x0100       # EXPRIED_FLAG_ZEOR_AOF_TIME: the hold is logged (and replicated) at once
 TF_MS = 0x0400
-F_CONC = 0x08
+F_SHOW, F_UPDATE, F_CONC = 0x01, 0x02, 0x08
+UF_FIRST, UF_CANCEL = 0x01, 0x02
 
 def data_set(s):
     return struct.pack("<IBB", len(s) + 2, 0, 0) + s
@@ -20,8 +21,8 @@ def lock(key, lid, to=0, tf=0, ex=600, ef=ZERO_AOF, cnt=0, rc=0, flag=0, data=No
 def lockw(key, lid, ms=300, **kw):
     return lock(key, lid, to=ms, tf=TF_MS, **kw)
 
-def unlock(key, lid, rc=0, long=False):
-    return {"cmd": "U", "key": key, "lid": lid, "to": 0, "tf": 0, "ex": 0, "ef": 0, "cnt": 0, "rc": rc, "flag": 0, "data": None, "long": long}
+def unlock(key, lid, rc=0, long=False, flag=0):
+    return {"cmd": "U", "key": key, "lid": lid, "to": 0, "tf": 0, "ex": 0, "ef": 0, "cnt": 0, "rc": rc, "flag": flag, "data": None, "long": long}
 
 def send(c, q, pending=False):
     return {"op": "send", "c": c, "q": q, "expect_pending": pending}
@@ -52,11 +53,25 @@ def from_behaviour(seed, idx, hist, keybase):
             lid = lidbase + h["lid"]
             ef = ZERO_AOF if rng.random() < 0.8 else 0
             if h["rop"] == "unlock":
-                q = unlock(key, lid)
+                q = unlock(key, lid, rc=2)          # one level, as in the model
                 if holder == lid:
                     holder = None
                 steps.append(send(c, q))
-            elif h["rop"] == "lockw" and lid in waited:
+            elif h["rop"] == "lockr":
+                # no wait, Rcount 2: the holder's re-lock is granted by the leader
+                q = lock(key, lid, rc=2, ef=ef, ex=rng.choice([600, 1800]))
+                if holder is None:
+                    holder = lid
+                steps.append(send(c, q))
+            elif h["rop"] == "lockcw" and lid not in waited:
+                # concurrent-check flag WITH a wait time: never the follower's fast path
+                waited.add(lid)
+                q = lockw(key, lid, ms=rng.choice([150, 300]), ef=ef, flag=F_CONC)
+                pend = holder is not None
+                if holder is None:
+                    holder = lid
+                steps.append(send(c, q, pending=pend))
+            elif h["rop"] in ("lockw", "lockcw") and lid in waited:
                 # (two requests QUEUED with one LockId are both granted - known finding A12, a C02 matter: not generated)
                 q = lock(key, lid, ef=ef)
                 if holder is None:
@@ -96,24 +111,29 @@ def from_behaviour(seed, idx, hist, keybase):
 # --------------------------------------------------------------------------------------------- seeded random
 
 def gen_random(seed, idx, keybase):
+    """Wide alphabet: lock flags show / update / both / concurrent-check (with and without a wait), Rcount 0..2 with re-entrant
+    re-locks and partial unlocks, shared keys (Count 0..3) next to exclusive ones, Timeout 0 and > 0, unlock-first and
+    cancel-wait, expiry changes (600 / 1800 / 3000 s), value payloads - through follower and leader, binary and text."""
     rng = random.Random(f"fwdrnd/{seed}/{idx}")
     nk = rng.choice([1, 2, 2, 3])
     keys = [keybase + i for i in range(nk)]
-    vkeys = [keybase + 5] if rng.random() < 0.35 else []
+    vkeys = [keybase + 5] if rng.random() < 0.3 else []
     lids = [keybase * 8 + i for i in range(1, 5)]
     conns = {"b1": {"node": "N", "proto": "bin"}, "b2": {"node": "N", "proto": "bin"}, "t1": {"node": "N", "proto": "text"},
              "t2": {"node": "N", "proto": "text"}, "d1": {"node": "L", "proto": "bin"}, "d2": {"node": "L", "proto": "text"}}
     cids = list(conns)
-    shared = rng.random() < 0.4
-    reent = rng.random() < 0.3
+    via_n = ["b1", "b2", "b1", "b2", "t1", "t2"]
+    # per key: exclusive or shared, re-entrant or not (the requests of a key mostly agree on Count / Rcount, as clients do)
+    kcnt = {k: (rng.choice([1, 2, 3]) if rng.random() < 0.45 else 0) for k in keys}
+    krc = {k: (rng.choice([1, 2]) if rng.random() < 0.5 else 0) for k in keys}
     steps = []
-    held = {k: [] for k in keys}        # hint only
+    held = {k: [] for k in keys}        # hint only (what the generator believes is held; never used for judging)
     waiting = {}                        # conn -> key it may still wait on (avoid using a blocked text connection)
     waited = set()
-    n = rng.randrange(6, 15)
+    n = rng.randrange(7, 16)
     for _ in range(n):
         r = rng.random()
-        if vkeys and r < 0.2:
+        if vkeys and r < 0.15:
             c = rng.choice(["t1", "t2", "d2"])
             if rng.random() < 0.7:
                 steps.append(send(c, {"cmd": "S", "key": vkeys[0], "val": "v%d" % rng.randrange(1000)}))
@@ -121,37 +141,51 @@ def gen_random(seed, idx, keybase):
                 steps.append(send(c, {"cmd": "G", "key": vkeys[0]}))
             continue
         k = rng.choice(keys)
-        c = rng.choice(cids)
-        cnt = rng.choice([0, 1, 2]) if shared else 0
-        rc = rng.choice([0, 1, 2]) if reent else 0
+        c = rng.choice(via_n) if rng.random() < 0.7 else rng.choice(["d1", "d2"])
+        cnt = kcnt[k] if rng.random() < 0.85 else rng.choice([0, 1, 2, 3])
+        rc = krc[k] if rng.random() < 0.85 else rng.choice([0, 1, 2])
         ef = ZERO_AOF if rng.random() < 0.75 else 0
-        if r < 0.55:
-            lid = rng.choice(lids)
+        ex = rng.choice([600, 600, 1800, 3000])
+        if r < 0.6:
+            # half of the lock requests come from a LockId the generator believes is holding: re-lock, update, show
+            lid = rng.choice(held[k]) if held[k] and rng.random() < 0.5 else rng.choice(lids)
             kind = rng.random()
             data = data_set(b"d%d" % rng.randrange(100)) if rng.random() < 0.2 else None
-            if kind < 0.6:
-                q = lock(k, lid, cnt=cnt, rc=rc, ef=ef, data=data)
-                pend = False
-            elif kind < 0.85 and (k, lid) not in waited:
+            pend = False
+            if kind < 0.40:
+                q = lock(k, lid, cnt=cnt, rc=rc, ef=ef, ex=ex, data=data)
+            elif kind < 0.55 and (k, lid) not in waited:
                 waited.add((k, lid))      # one queued request per key and LockId (finding A12 is not this property's business)
-                q = lockw(k, lid, ms=rng.choice([100, 250]), cnt=cnt, rc=rc, ef=ef, data=data)
-                pend = bool(held[k]) and lid not in held[k]
-                # the unlock that wakes a waiter must come on another connection: remember who may be blocked
+                q = lockw(k, lid, ms=rng.choice([100, 250]), cnt=cnt, rc=rc, ef=ef, ex=ex, data=data)
+                pend = bool(held[k]) and lid not in held[k] and len(held[k]) > cnt
                 if pend:
                     waiting[c] = k
+            elif kind < 0.65:
+                q = lock(k, lid, cnt=cnt, rc=rc, ef=ef, ex=ex, flag=F_CONC)
+            elif kind < 0.72 and (k, lid) not in waited:
+                waited.add((k, lid))
+                q = lockw(k, lid, ms=rng.choice([100, 250]), cnt=cnt, rc=rc, ef=ef, ex=ex, flag=F_CONC)
+                pend = len(held[k]) > cnt
+                if pend:
+                    waiting[c] = k
+            elif kind < 0.86:
+                q = lock(k, lid, cnt=cnt, rc=rc, ef=ef, ex=ex, flag=F_UPDATE, data=data)
+            elif kind < 0.93:
+                q = lock(k, lid, cnt=cnt, rc=rc, ef=ef, ex=ex, flag=F_SHOW)
             else:
-                q = lock(k, lid, cnt=cnt, rc=rc, ef=ef, flag=F_CONC)
-                pend = False
-            if not held[k] or shared or (reent and lid in held[k]):
+                q = lock(k, lid, cnt=cnt, rc=rc, ef=ef, ex=ex, flag=F_SHOW | F_UPDATE)
+            if len(held[k]) <= cnt or (rc and lid in held[k]):
                 held[k].append(lid)
             steps.append(send(c, q, pending=pend))
         else:
             lid = rng.choice(held[k]) if held[k] and rng.random() < 0.8 else rng.choice(lids)
-            cands = [x for x in cids if waiting.get(x) != k]
-            c = rng.choice(cands or cids)
+            cands = [x for x in ([c] + cids) if waiting.get(x) != k]
+            c = cands[0] if cands else c
             if lid in held[k]:
                 held[k].remove(lid)
-            steps.append(send(c, unlock(k, lid, rc=rc, long=rng.random() < 0.5)))
+            uf = rng.random()
+            flag = 0 if uf < 0.75 else (UF_FIRST if uf < 0.9 else UF_CANCEL)
+            steps.append(send(c, unlock(k, lid, rc=rc, long=rng.random() < 0.5, flag=flag)))
         if rng.random() < 0.1:
             steps.append({"op": "wait", "ms": rng.choice([20, 120, 300])})
     return {"name": f"rnd-{seed}-{idx}", "idx": idx, "kind": "rnd", "keys": keys, "vkeys": vkeys, "conns": conns, "steps": steps, "src": "seeded"}
@@ -179,6 +213,30 @@ def directed(seed, idx0, keybase0, stride):
                   send(c, unlock(kk, l + 1)), send(c, lock(kk, l + 3, cnt=1)), send(c, lock(kk, l + 4, cnt=1)), send(c, lock(kk, l + 5, cnt=1)),
                   send(c, lock(kk, l + 3, cnt=1, rc=1)), send(c, unlock(kk, l + 3, rc=1)), send(c, unlock(kk, l + 4))]
     nxt("same-script-every-route", "dir", [k, k + 1, k + 2, k + 3], {"d1": LB, "d2": LT, "b1": B, "t1": T}, steps)
+
+    # 1b. requests of a CURRENT HOLDER through every route: re-entrant re-locks, update / show when locked, concurrent check
+    #     with and without a wait, partial unlocks, unlock-first, cancel-wait, an expiry change visible in the leader's snapshot
+    k = kb(); l = k * 8
+    steps = []
+    for j, c in enumerate(["d1", "b1", "t1", "d2"]):
+        kk = k + j
+        o = "b2" if c != "b2" else "b1"
+        steps += [send(c, lock(kk, l + 1, rc=2)), send(c, lock(kk, l + 1, rc=2)),             # re-lock: SUCCED, LCount 2
+                  send(o, lock(kk, l + 2)),                                                   # contention: TIMEOUT
+                  send(c, lock(kk, l + 1, rc=2)), send(c, lock(kk, l + 1, rc=2)),             # depth 3, then beyond Rcount
+                  send(c, lock(kk, l + 1, rc=2, flag=F_UPDATE, ex=1800)),                     # update: LOCKED_ERROR + new deadline
+                  send(o, lock(kk, l + 2, flag=F_SHOW)), send(o, lock(kk, l + 2, flag=F_SHOW | F_UPDATE)),
+                  send(c, lock(kk, l + 1, rc=2, flag=F_SHOW)),
+                  send(o, lock(kk, l + 2, flag=F_CONC)),                                      # the fast path (follower) / LockDB.Lock's own
+                  send(c, lock(kk, l + 1, rc=2, flag=F_CONC)),
+                  send(o, lockw(kk, l + 2, ms=120, flag=F_CONC), pending=True), {"op": "wait", "ms": 200},
+                  send(c, unlock(kk, l + 1, rc=2)), send(c, unlock(kk, l + 1, rc=2)),         # partial unlocks
+                  send(o, unlock(kk, l + 3, flag=UF_FIRST)),                                  # releases the oldest hold
+                  send(c, lock(kk, l + 1, cnt=2, ex=3000)), send(o, lock(kk, l + 2, cnt=2)), send(c, lock(kk, l + 3, cnt=2)),
+                  send(o, lock(kk, l + 4, cnt=2)),                                            # shared key full
+                  send(o, lockw(kk, l + 4, ms=2000, cnt=2), pending=True), send(c, unlock(kk, l + 4, flag=UF_CANCEL)), {"op": "wait", "ms": 60},
+                  send(c, lock(kk, l + 2, cnt=2, flag=F_UPDATE, ex=1800, data=data_set(b"upd")))]
+    nxt("holder-requests-every-route", "dir", [k, k + 1, k + 2, k + 3], {"d1": LB, "d2": LT, "b1": B, "b2": dict(B), "t1": T}, steps)
 
     # 2. cross routes: a hold taken through one node is seen, waited for and released through the others
     k = kb(); l = k * 8
